@@ -21,16 +21,23 @@ TraceInit ==
 Fail(kind, e, name) == PrintT(<<"FAIL", kind, e.t, l, e.a, name>>)
 Chk(ok, kind, e, name) == IF ok THEN TRUE ELSE Fail(kind, e, name)
 
+\* the message the loop was handing over counts as read unless it has been cleaned
+\* away and was not delivered (then the loop had not read it before the clean)
+UseHeld(e) ==
+  LET h == subs[e.args.id].held IN
+  \/ \E i \in 1..Len(log) : log[i] = h
+  \/ (e.obs.got # <<>> /\ e.obs.got[1] = h)
+
 NextSubs(e) ==
   CASE e.a = "Open" -> [s \in SubIds |-> NoSub]
-    [] e.a = "Sub" -> [subs EXCEPT ![e.args.id] = SubRec(e.args.req, e.obs.got, e.obs.st)]
-    [] e.a = "Drain" -> [subs EXCEPT ![e.args.id] = DrainRec(e.args.id, e.obs.got, e.obs.st)]
+    [] e.a = "Sub" -> [subs EXCEPT ![e.args.id] = SubRec(e.args.req, e.args.n, e.obs.got, e.obs.st)]
+    [] e.a = "Drain" -> [subs EXCEPT ![e.args.id] = DrainRec(e.args.id, e.args.n, UseHeld(e), e.obs.got, e.obs.st)]
     [] e.a = "Cancel" -> [subs EXCEPT ![e.args.id] = NoSub]
     [] OTHER -> subs
 
 PropOf(e) ==
-  CASE e.a = "Sub" -> P_Sub(e.args.id, e.args.req)
-    [] e.a = "Drain" -> P_Drain(e.args.id)
+  CASE e.a = "Sub" -> P_Sub(e.args.id, e.args.req, e.args.n)
+    [] e.a = "Drain" -> P_Drain(e.args.id, e.args.n)
     [] OTHER -> TRUE
 
 \* shaping steps: only their effect on the subscriber-visible log is compared
@@ -39,13 +46,14 @@ Grown(n) == /\ Len(log') = Len(log) + n
             /\ \A i \in 1..n : LET r == log'[Len(log) + i] IN r.off = Newest + i /\ r.ts = 10 * (r.off + 1)
 
 ImplOf(e) ==
-  CASE e.a = "Sub" -> DoSub(e.args.id, e.args.req)
-    [] e.a = "Drain" -> DoDrain(e.args.id)
+  CASE e.a = "Sub" -> DoSub(e.args.id, e.args.req, e.args.n)
+    [] e.a = "Drain" -> DoDrain(e.args.id, e.args.n, UseHeld(e))
     [] e.a = "Cancel" -> log' = log /\ hw' = hw /\ ro' = ro
     [] e.a = "Publish" -> Grown(e.args.n) /\ hw' = Last(log').off /\ ro' = ro /\ obs'.err = ""
     [] e.a = "Tail" -> Grown(e.args.n) /\ hw' = hw /\ ro' = ro /\ obs'.err = ""
     [] e.a = "Commit" -> log' = log /\ hw' = (IF log = <<>> THEN hw ELSE Last(log).off)
     [] e.a = "Readonly" -> log' = log /\ hw' = hw /\ ro' = e.args.b
+    \* (with retention the cleaner also deletes whole oldest segments: any subset of the log)
     [] e.a = "Clean" -> hw' = hw /\ ro' = ro /\ \A i \in 1..Len(log') : \E j \in 1..Len(log) : log[j] = log'[i]
     [] OTHER -> TRUE
 
